@@ -118,7 +118,8 @@ def parse_valgrind(text, needle=("anneal", "canneal", "qvcanary", "pcg_", "rand_
         m = VG_ERR_RE.search(b)
         if m and any(n in b for n in needle):
             fm = re.search(r"(?:at|by) 0x[0-9A-F]+: (\S+) \(([^)]*)\)", b)
-            out.append({"tool": "valgrind", "kind": m.group(1), "where": "%s %s" % (fm.group(1), fm.group(2)) if fm else ""})
+            loc = os.path.basename(fm.group(2).split()[-1]) if fm else ""      # no temporary directory names in mechanism tags
+            out.append({"tool": "valgrind", "kind": m.group(1), "where": "%s %s" % (fm.group(1), loc) if fm else ""})
     return out
 
 
